@@ -27,6 +27,8 @@ VerdictQ ==
    \* consecutive queries less than half a period apart are related (no event can hide between them)
    \cup (IF st.have /\ st.f = Ev.f /\ st.v = Ev.v /\ Le(st.q, Ev.q) /\ Lt(Sub(Ev.q, st.q), DivInt(c.P, 2)) THEN
              Viol("NEVER_BACKWARDS", NeverBackwards(c, st.r, Ev.r))
+        \* coarse forms are enforced for EVERY finder, also where a known finding covers the fine clause
+        \cup Viol("NEVER_BACKWARDS_COARSE", Ge(Ev.r, Sub(st.r, DivInt(c.P, 200))))
         \cup Viol("ONE_PERIOD_APART", ~NeverBackwards(c, st.r, Ev.r) \/ OnePeriodApart(c, st.r, Ev.r))
         \cup Viol("SAME_EVENT_SAME_INSTANT", StableOK(c, st.r, Ev.r))
          ELSE {}))
@@ -50,6 +52,7 @@ VerdictEv ==
               Viol("EVENT_RADIUS_EXTREMAL", IF Ev.v = 1 THEN MinInside(s) ELSE MaxInside(s))
          [] Ev.kind = "node" ->
               Viol("EVENT_LATITUDE_ZERO", IF Ev.v = 1 THEN RisingAcross(s) ELSE FallingAcross(s))
+         \cup Viol("EVENT_LATITUDE_SMALL", Le(Abs(s[3]), Dec(2, 1)))
          [] OTHER -> {"UNKNOWN_KIND"}
 
 Verdict == IF Ev.k = "q" THEN VerdictQ ELSE VerdictEv
